@@ -291,7 +291,8 @@ func genC05Overflow(r *rt.Rand) *world.Scenario {
 	slow := "never"
 	if r.Chance(0.8) {
 		// idle until about the moment the buffer overflows, then consume slowly
-		slow = fmt.Sprintf("from:%d:every:%d", 58000+r.Intn(8000), 20+r.Intn(60))
+		// (the hub buffers 10 000 batches, the watch goroutine 100 more and one in hand)
+		slow = fmt.Sprintf("lag:%d:every:%d", 9900+r.Intn(230), 20+r.Intn(60))
 	}
 	n := int64(10600 + r.Intn(1200))
 	sc.Clients = []world.Client{
